@@ -653,8 +653,182 @@ fn gen_exhaustive(emit: &mut dyn FnMut(Value)) {
     }
 }
 
+fn el(name: &str, disp: &str, attrs: &str, kind: char, children: Vec<Node>) -> Node {
+    Node::El { name: name.to_string(), disp: disp.to_string(), attrs: attrs.to_string(), kind, children }
+}
+fn txt(s: &str) -> Node {
+    Node::Verb { kind: "text", raw: s.to_string(), marks: vec![] }
+}
+
+/// `<html HA><body BA><div>pre</div> TARGET <p>post</p></body></html>`, every filter in the list applied to path
+/// html > body > (target name); only cases inside the property's quantifier are emitted
+fn emit_skeleton(html_attrs: &str, body_attrs: &str, target: Node, extra_sibling: Option<Node>, tname: &str, actions: &[&str], value: &str, kind: &str, emit: &mut dyn FnMut(Value)) {
+    let mut body = vec![el("div", "div", "", 'n', vec![txt("pre")]), target];
+    if let Some(x) = extra_sibling {
+        body.push(x);
+    }
+    body.push(el("p", "p", "", 'n', vec![txt("post")]));
+    let doc = vec![el("html", "html", html_attrs, 'n', vec![el("body", "body", body_attrs, 'n', body)])];
+    for (ai, action) in actions.iter().enumerate() {
+        for (si, sel) in [None, Some("x-mark"), Some("*")].iter().enumerate() {
+            for path in [vec!["html", "body", tname], vec![tname]] {
+                let f = FSpec::Html { action: action.to_string(), path: path.iter().map(|s| s.to_string()).collect(), sel: sel.map(|s| s.to_string()), value: value.to_string() };
+                if in_domain(&doc, &f).is_err() {
+                    continue;
+                }
+                let mut fj = f.to_json();
+                if (ai + si) % 2 == 0 {
+                    fj["inner"] = json!("<b>INNER</b>");
+                }
+                emit(json!({"doc": doc.iter().map(node_json).collect::<Vec<_>>(), "filters": [fj], "fam": kind}));
+            }
+        }
+    }
+}
+
+/// Deterministic boundary families, part of EVERY run:
+/// (1) every ASCII white-space byte of the HTML spec (TAB, LF, FF, CR, SPACE) and mixtures as the separator after the
+///     tag name, between attributes and before `>` / `/>`, in target elements AND in the path elements; a solidus inside a
+///     tag (`<main/b>`), quoted `>` in attribute values, upper / mixed-case tag names, NUL in text;
+/// (2) targets with 0, 1, 16, 255, 256, 257 attributes;  (3) long targets (8 193 / 70 000 bytes of content / attribute value).
+fn gen_boundary(emit: &mut dyn FnMut(Value)) {
+    let all = ["append_child", "prepend_child", "replace"];
+    let wss = ["\t", "\n", "\u{c}", "\r", " ", "\t\n", "\u{c}\u{c}", " \r\n\t\u{c}", "\u{c} "];
+    for w in wss {
+        let attr_forms = [
+            format!("{w}class=\"x\""),
+            format!("{w}a=b{w}c='d'{w}"),
+            w.to_string(),
+            format!("{w}hidden{w}data-x=\"a > b\"{w}"),
+            format!("{w}a=b"),
+        ];
+        for (i, a) in attr_forms.iter().enumerate() {
+            // normal target; the path elements carry the same white space
+            let target = el("main", if i % 2 == 0 { "main" } else { "MAIN" }, a, 'n', vec![txt("in"), el("x-mark", "x-mark", "", 'n', vec![]), el("b", "b", a, 'n', vec![txt("deep")])]);
+            emit_skeleton(a, &format!("{w}id=1"), target, None, "main", &all, "<ins>V</ins>", "ws", emit);
+        }
+        // void and self-closing replace targets (repeated siblings), white space before `>` and `/>`
+        let v1 = el("img", "img", &format!("{w}src=\"x\"{w}"), 's', vec![]);
+        let v2 = el("img", "IMG", &format!("{w}alt='a'{w}"), 's', vec![]);
+        emit_skeleton("", w, v1, Some(v2), "img", &["replace"], "<i>r</i>", "ws", emit);
+        let b1 = el("br", "br", w, 'v', vec![]);
+        let b2 = el("br", "Br", &format!("{w}clear=all{w}"), 'v', vec![]);
+        emit_skeleton(w, "", b1, Some(b2), "br", &["replace"], "", "ws", emit);
+    }
+    // solidus inside a tag, NUL in text, mixed-case path elements
+    // (an attribute text ENDING in `/` would turn `<main…>` into a self-closing token: not a serialisation of a normal element)
+    for a in ["/b", "/b/c", " /x", " a=b/c", " / x", " x/=y"] {
+        let target = el("main", "Main", a, 'n', vec![txt("a\u{0}b"), el("x-mark", "x-mark", "", 'n', vec![])]);
+        emit_skeleton(a, "", target, None, "main", &all, "v\u{0}w", "solidus", emit);
+    }
+    // (2) attribute counts
+    for n in [0usize, 1, 16, 255, 256, 257] {
+        let attrs: String = (0..n).map(|i| format!(" a{i}=\"v{i}\"")).collect();
+        let target = el("main", "main", &attrs, 'n', vec![txt("in")]);
+        emit_skeleton("", "", target, None, "main", &all, "<ins>V</ins>", "attrs", emit);
+        let st = el("img", "img", &format!("{attrs} "), 's', vec![]);
+        emit_skeleton("", "", st, None, "img", &["replace"], "<i>r</i>", "attrs", emit);
+    }
+    // (3) long targets
+    for n in [8193usize, 70_000] {
+        let target = el("main", "main", " id=t", 'n', vec![txt(&"x".repeat(n)), el("x-mark", "x-mark", "", 'n', vec![])]);
+        emit_skeleton("", "", target, None, "main", &all, "<ins>V</ins>", "long", emit);
+        let target = el("main", "main", &format!(" title=\"{}\"", "y".repeat(n)), 'n', vec![txt("in")]);
+        emit_skeleton("", "", target, None, "main", &all, "<ins>V</ins>", "long", emit);
+        let target = el("main", "main", "", 'n', (0..n / 64).map(|i| el("i", "i", "", 'n', vec![txt(&format!("{i}"))])).collect());
+        emit_skeleton("", "", target, None, "main", &["append_child", "replace"], &"V".repeat(n), "long", emit);
+    }
+}
+
+/// Diff-directed search: cases built from the numbers and strings of the changed source lines (`VERIF_HINTS`).
+fn gen_hinted(emit: &mut dyn FnMut(Value)) {
+    let h = hints();
+    if h.is_empty() {
+        return;
+    }
+    let all = ["append_child", "prepend_child", "replace"];
+    for n in h.sizes(200_000) {
+        // content size, attribute-value size, value size, number of attributes, of siblings, of children, nesting depth
+        let target = el("main", "main", "", 'n', vec![txt(&"x".repeat(n))]);
+        emit_skeleton("", "", target, None, "main", &all, "<ins>V</ins>", "hint-size", emit);
+        let target = el("main", "main", &format!(" t=\"{}\"", "y".repeat(n)), 'n', vec![txt("in")]);
+        emit_skeleton("", "", target, None, "main", &all, "<ins>V</ins>", "hint-size", emit);
+        let target = el("main", "main", "", 'n', vec![txt("in")]);
+        emit_skeleton("", "", target, None, "main", &all, &"V".repeat(n), "hint-size", emit);
+        if n <= 5000 {
+            let attrs: String = (0..n).map(|i| format!(" a{i}=v")).collect();
+            let target = el("main", "main", &attrs, 'n', vec![txt("in")]);
+            emit_skeleton("", "", target, None, "main", &all, "<ins>V</ins>", "hint-size", emit);
+            let kids: Vec<Node> = (0..n).map(|i| el("i", "i", "", 'n', vec![txt(&format!("{i}"))])).collect();
+            let target = el("main", "main", "", 'n', kids);
+            emit_skeleton("", "", target, None, "main", &all, "<ins>V</ins>", "hint-size", emit);
+            // n sibling replace targets
+            let sibs: Vec<Node> = (0..n).map(|i| el("li", "li", "", if i % 3 == 0 { 's' } else { 'n' }, vec![])).collect();
+            let doc = vec![el("html", "html", "", 'n', vec![el("ul", "ul", "", 'n', sibs)])];
+            let f = FSpec::Html { action: "replace".to_string(), path: vec!["html".to_string(), "ul".to_string(), "li".to_string()], sel: None, value: "<li>r</li>".to_string() };
+            if in_domain(&doc, &f).is_ok() {
+                emit(json!({"doc": doc.iter().map(node_json).collect::<Vec<_>>(), "filters": [f.to_json()], "fam": "hint-size"}));
+            }
+        }
+        if n <= 300 {
+            // nesting depth n above the target, path of the unique names only
+            let mut node = el("main", "main", "", 'n', vec![txt("in")]);
+            for _ in 0..n {
+                node = el("div", "div", "", 'n', vec![node]);
+            }
+            let doc = vec![el("html", "html", "", 'n', vec![node])];
+            for action in all {
+                let f = FSpec::Html { action: action.to_string(), path: vec!["main".to_string()], sel: None, value: "<ins>V</ins>".to_string() };
+                if in_domain(&doc, &f).is_ok() {
+                    emit(json!({"doc": doc.iter().map(node_json).collect::<Vec<_>>(), "filters": [f.to_json()], "fam": "hint-size"}));
+                }
+            }
+        }
+    }
+    for st in &h.strs {
+        if st.is_empty() || st.len() > 200 {
+            continue;
+        }
+        let mut variants = vec![st.clone(), st.to_uppercase(), st.to_lowercase()];
+        variants.dedup();
+        for v in &variants {
+            let is_ws = v.chars().all(|c| matches!(c, ' ' | '\t' | '\n' | '\r' | '\u{c}'));
+            let is_name = v.chars().all(|c| c.is_ascii_alphanumeric()) && v.chars().next().map(|c| c.is_ascii_alphabetic()).unwrap_or(false);
+            let quotable = !v.contains('"');
+            // as tag white space
+            if is_ws {
+                let a = format!("{v}class=\"x\"{v}");
+                let target = el("main", "main", &a, 'n', vec![txt("in"), el("b", "b", v, 'n', vec![])]);
+                emit_skeleton(v, v, target, None, "main", &all, "<ins>V</ins>", "hint-str", emit);
+                let st = el("img", "img", &format!("{v}src=x{v}"), 's', vec![]);
+                emit_skeleton("", "", st, None, "img", &["replace"], "<i>r</i>", "hint-str", emit);
+            }
+            // as a tag name (target and path element), lower-cased node name
+            if is_name && !["html", "body", "div", "p", "script", "style", "title", "textarea"].contains(&v.to_lowercase().as_str()) {
+                let nm = v.to_lowercase();
+                let kind = if ["area", "base", "br", "col", "embed", "hr", "img", "input", "link", "meta", "param", "source", "track", "wbr"].contains(&nm.as_str()) { 'v' } else { 'n' };
+                let target = el(&nm, v, " k=v", kind, if kind == 'n' { vec![txt("in")] } else { vec![] });
+                emit_skeleton("", "", target, None, &nm, &all, "<ins>V</ins>", "hint-str", emit);
+            }
+            // as attribute text (quoted value, bare key when a name), as text content, as filter value, as comment body
+            if quotable && !v.contains('>') {
+                let target = el("main", "main", &format!(" t=\"{v}\" u='1'"), 'n', vec![txt("in")]);
+                emit_skeleton("", "", target, None, "main", &all, "<ins>V</ins>", "hint-str", emit);
+            }
+            if !v.contains('<') && !v.contains('&') {
+                let target = el("main", "main", "", 'n', vec![txt(v), el("x-mark", "x-mark", "", 'n', vec![]), txt(v)]);
+                emit_skeleton("", "", target, None, "main", &all, v, "hint-str", emit);
+                let target = el("main", "main", "", 'n', vec![txt("in")]);
+                emit_skeleton("", "", target, None, "main", &all, &format!("<ins>{v}</ins>{v}"), "hint-str", emit);
+            }
+        }
+    }
+}
+
 fn gen(args: &Args, emit: &mut dyn FnMut(Value)) {
     let mut rng = seeded(args.seed);
+    gen_hinted(emit);
+    gen_boundary(emit);
     if args.tier == "thorough" {
         gen_exhaustive(emit);
     }
